@@ -6,7 +6,7 @@ import KskmProofs.Lemmas.Hsm
 namespace Kskm
 
 /-- what `public_key_to_dnssec_key` returns, when it returns -/
-theorem publicKeyToDnssecKey_ok (pk id : String) (alg : Nat) (ttl flags : Int) (k : Key)
+theorem publicKeyToDnssecKey_inv_c04 (pk id : String) (alg : Nat) (ttl flags : Int) (k : Key)
     (h : publicKeyToDnssecKey pk id alg ttl flags = .ok k) :
     k.publicKey = pk ∧ k.keyIdentifier = id ∧ k.algorithm = alg ∧ k.ttl = ttl ∧ k.flags = flags ∧
     k.protocol = 3 ∧ ∃ r, keyToRdata k = .ok r ∧ k.keyTag = (keyTagOfRdata r : Nat) := by
@@ -317,6 +317,90 @@ theorem validateDnskeyMatchesKsk_ok (ext : Externals) (ksk : KskKey) (k : Key)
           simp only [Option.some.injEq] at hds'
           subst hds'
           exact ⟨inp, digest, rfl, hh, by simpa using hne⟩
+
+
+/-- the DS half of `validate_dnskey_matches_ksk` -/
+def dsCheck (ext : Externals) (ksk : KskKey) (k : Key) : Res Unit :=
+  match ksk.dsSha256 with
+  | none => pure ()
+  | some ds =>
+    if ds.isEmpty then pure () else do
+    let inp ← dsInput k
+    let digest ← hashOrUnknown ext.hash .sha256 inp
+    if ds.toUpper != upperHex digest then err .runtime else pure ()
+
+/-- the key-tag half -/
+def tagCheck (ksk : KskKey) (k : Key) : Res Unit :=
+  match ksk.keyTag with
+  | none => pure ()
+  | some t => if k.keyTag != t then err .runtime else pure ()
+
+theorem validateDnskeyMatchesKsk_eq (ext : Externals) (ksk : KskKey) (k : Key) :
+    validateDnskeyMatchesKsk ext ksk k = (do dsCheck ext ksk k; tagCheck ksk k) := by
+  unfold validateDnskeyMatchesKsk dsCheck tagCheck
+  cases ksk.dsSha256 with
+  | none => rfl
+  | some ds =>
+    simp only
+    split
+    · rfl
+    · cases dsInput k with
+      | error e => rfl
+      | ok inp =>
+        cases hh : hashOrUnknown ext.hash .sha256 inp with
+        | error e => simp [bind, Except.bind, hh]
+        | ok digest =>
+          simp only [bind, Except.bind, hh]
+          split <;> rfl
+
+theorem tagCheck_ok_iff (ksk : KskKey) (k : Key) :
+    tagCheck ksk k = .ok () ↔ ∀ t, ksk.keyTag = some t → k.keyTag = t := by
+  unfold tagCheck
+  cases ksk.keyTag with
+  | none => simp [pure, Except.pure]
+  | some t =>
+    by_cases hne : k.keyTag = t
+    · simp [hne, pure, Except.pure]
+    · simp [hne, err]
+
+theorem dsCheck_ok_iff (ext : Externals) (ksk : KskKey) (k : Key) :
+    dsCheck ext ksk k = .ok () ↔
+      ∀ ds, ksk.dsSha256 = some ds → ds.isEmpty = false →
+        ∃ inp digest, dsInput k = .ok inp ∧ ext.hash .sha256 inp = some digest ∧
+          ds.toUpper = upperHex digest := by
+  unfold dsCheck
+  cases ksk.dsSha256 with
+  | none => simp [pure, Except.pure]
+  | some ds =>
+    simp only [Option.some.injEq, forall_eq']
+    cases hemp : ds.isEmpty
+    case true => simp [pure, Except.pure]
+    simp only [Bool.false_eq_true, ↓reduceIte, bind, Except.bind, forall_const]
+    cases hin : dsInput k with
+    | error e => simp
+    | ok inp =>
+      simp only [Except.ok.injEq]
+      cases hh : ext.hash .sha256 inp with
+      | none => simp [hashOrUnknown, hh, unsupported]
+      | some digest =>
+        simp only [hashOrUnknown, hh, pure, Except.pure]
+        by_cases hne : ds.toUpper = upperHex digest
+        · simp [hne]
+          exact ⟨digest, hh, rfl⟩
+        · simp [hne, err]
+          intro x hx; rw [hh] at hx; cases hx; exact hne
+
+/-- **`validate_dnskey_matches_ksk` accepts exactly when** the configured key tag (if any) equals
+    the key's tag and the configured DS digest (if any, non-empty) equals, case-insensitively,
+    SHA-256 over owner ‖ RDATA -/
+theorem validateDnskeyMatchesKsk_ok_iff (ext : Externals) (ksk : KskKey) (k : Key) :
+    validateDnskeyMatchesKsk ext ksk k = .ok () ↔
+    (∀ t, ksk.keyTag = some t → k.keyTag = t) ∧
+    (∀ ds, ksk.dsSha256 = some ds → ds.isEmpty = false →
+      ∃ inp digest, dsInput k = .ok inp ∧ ext.hash .sha256 inp = some digest ∧
+        ds.toUpper = upperHex digest) := by
+  rw [validateDnskeyMatchesKsk_eq, seq_ok_iff, tagCheck_ok_iff, dsCheck_ok_iff]
+  exact And.comm
 
 
 end Kskm
